@@ -2,7 +2,7 @@
     Property theorems only; proofs live in ParseFacts.v / DecCorollaries.v / RoundTripKeyed.v. *)
 From Coq Require Import String.
 From Coq Require Import List NArith.
-From Borsh Require Import Bytes Result Ty Ser De Entry RoundTrip RoundTripKeyed ParseFacts DecCorollaries C05Facts.
+From Borsh Require Import Bytes Result Ty Ser De Entry RoundTrip RoundTripKeyed ParseFacts DecCorollaries RefusalStable C05Facts.
 Import ListNotations.
 Local Open Scope N_scope.
 
@@ -63,6 +63,37 @@ Theorem C05_prefix :
     from_reader slice_reader c t q1 = Err InvalidData MUnexpectedLength.
 Proof. exact prefix_rejected. Qed.
 Print Assumptions C05_prefix.
+
+(** A refusal that does not ask for more bytes has seen enough: the same input followed by anything
+    is refused in the same way by all six entry points - for EVERY type and EVERY byte string.  (The
+    read-ahead stage of C11 rests on it: such a refusal must not depend on, nor consume, what follows.) *)
+Theorem C05_refusal_stable :
+  forall (c : cfg) (t : ty) (bs : bytes) (k : kind) (m : msg) (x : bytes),
+    dec_slice c t bs = Err k m -> m <> MUnexpectedLength ->
+    try_from_slice c t (bs ++ x) = Err k m /\ from_slice c t (bs ++ x) = Err k m /\
+    deserialize c t (bs ++ x) = Err k m /\
+    deserialize_reader slice_reader c t (bs ++ x) = Err k m /\
+    try_from_reader slice_reader c t (bs ++ x) = Err k m /\ from_reader slice_reader c t (bs ++ x) = Err k m.
+Proof. exact try_from_slice_refusal_stable. Qed.
+Print Assumptions C05_refusal_stable.
+
+(** ... and "Unexpected length of input" is the only refusal more bytes can change. *)
+Theorem C05_refusal_changes_only_at_eof :
+  forall (c : cfg) (t : ty) (bs : bytes) (k : kind) (m : msg) (x : bytes),
+    dec_slice c t bs = Err k m -> dec_slice c t (bs ++ x) <> Err k m ->
+    k = InvalidData /\ m = MUnexpectedLength.
+Proof. exact refusal_changes_only_at_eof. Qed.
+Print Assumptions C05_refusal_changes_only_at_eof.
+
+(** Non-vacuity: a bad Option tag inside a vector is refused identically with 64 more bytes behind it, and a
+    truncated input is the refusal that an extension does change. *)
+Example C05_refusal_nonvacuous :
+  let t := TSeq SVec (TSum KOption [TProd (PVariant [] []) []; TPrim (PInt false W1)]) in
+  dec_slice {| strict := true |} t [Byte.x02; Byte.x00; Byte.x00; Byte.x00; Byte.x01; Byte.x07; Byte.x05] = Err InvalidData (MBadOption 5) /\
+  dec_slice {| strict := true |} t ([Byte.x02; Byte.x00; Byte.x00; Byte.x00; Byte.x01; Byte.x07; Byte.x05] ++ repeat Byte.x41 64) = Err InvalidData (MBadOption 5) /\
+  dec_slice {| strict := true |} t [Byte.x02; Byte.x00; Byte.x00; Byte.x00; Byte.x01; Byte.x07] = Err InvalidData MUnexpectedLength /\
+  dec_slice {| strict := true |} t ([Byte.x02; Byte.x00; Byte.x00; Byte.x00; Byte.x01; Byte.x07] ++ [Byte.x00]) = Ok (VL [VV 1 (VN 7); VV 0 (VL [])], []).
+Proof. vm_compute. repeat split. Qed.
 
 (** Non-vacuity: two values of different types in one stream with a tail. *)
 Example C05_nonvacuous :
